@@ -190,6 +190,18 @@ def check(tier, seed):
                     run.violation("execute:independent-of-earlier-requests", "after earlier requests on the same schema object: " + bad[1],
                                   {"query": query, "world": wname, "history": [a[0], b[0]]}, True)
     n += default_resolver_contract(run)
+    # GetOperation: the operation name selects among the operations, and must name one of them - also when the document has only one
+    for query, opname in [("query A { count }", "A"), ("query A { count }", "Nope"), ("{ count }", "X"), ("{ count }", None), ("query A { count } query B { me { name } }", "B"),
+                          ("query A { count } query B { me { name } }", None), ("query A { count } query B { me { name } }", "C"), ("mutation M { d }", "Other"),
+                          ("mutation M { d }", "M"), ("query A { count } mutation A2 { d }", "A2")]:
+        for cfg in ("blocking-executor", "executor-blocking"):
+            n += 1
+            exp = H.reference(H.make_schema(), query, {}, {}, opname)
+            got = H.run_request(H.make_schema(), query, {}, {}, cfg, operation_name=opname)
+            bad = compare(exp, got)
+            if bad:
+                run.violation(bad[0].replace("execute:request-error", "execute:operation-selected-by-name"), "operation_name=%r on %r: %s" % (opname, query, bad[1]),
+                              {"query": query, "operation_name": opname, "config": cfg}, True)
     run.cov["evaluations"] = n + hist
     run.cov["distinct_nontrivial"] = nontriv
     run.cov["parts"]["requests"] = {"operations": len({i[0] for i in items}), "request_world_pairs": len(items), "executions": n, "history_runs": hist}
